@@ -639,8 +639,10 @@ def cold_method_pairs():
     the first calls of their process."""
     out = []
     for m in c07.lib_methods():
-        accts = list(dict.fromkeys(c07.bases_for(m)))[:2]
-        if len(accts) == 2:
+        # two digit-rich accounts: both calls have real work to do on whatever is built on first use
+        allb = list(dict.fromkeys(c07.bases_for(m)))
+        accts = ([b for b in allb if len(set(b)) > 3] + [b[::-1] for b in allb if len(set(b)) > 3] + allb)[:2]
+        if len(accts) == 2 and accts[0] != accts[1]:
             out.append((f"cold-method:{m}", {"op": "method", "m": m, "account": accts[0]},
                         {"op": "method", "m": m, "account": accts[1]}))
     return out
